@@ -13,7 +13,8 @@ LEVEL_TEXT = 'Exploration: Size, nesting, farthest-point and max-score clauses c
 RULE = ('Case = (performance curve, distance, ordering); the history is the complete chain rdp_fixed(k) for '
         'k = 0, 1, ..., n+1 on that curve, checked step by step: |S_k| = min(max(k,2), n); S_k subset of '
         'S_{k+1} with exactly one new index s; s strictly inside a segment (l, r) of S_k; s is a farthest '
-        'interior point of that segment up to 64*eps*scale (library distance primitive); the segment score '
+        'interior point of that segment up to 64*eps*scale (by the library distance primitive AND by distances '
+        'computed from the geometric definition); the segment score '
         '(triangle = 1/2*|chord|*max d, area = sum d, segment = endpoint-fit residual) recomputed from the '
         'segment alone is maximal among segments of S_k with interior points (1e-9 relative).  Non-trivial: a '
         'chain step in which >= 2 splittable segments compete.  Distinct by digest of (curve, distance, order).')
@@ -37,6 +38,21 @@ def seg_score(p, l, r, order, D):
         if order == 'triangle':
             return float(0.5 * np.linalg.norm(pt[0] - pt[-1]) * d.max())
         return float(np.sum(d))
+
+
+def geometric_farthest(rec, p, l, r, s, kind, k):
+    """The statement's clause itself - no interior point of the split segment is farther from its chord
+    than the new index, by more than rounding noise - with distances computed from the geometric
+    definition, not by the library primitive the simplifier uses."""
+    g = lib.ref_distances(p, l, r, kind)
+    if not np.all(np.isfinite(g)):
+        rec.tag('geometric-distance:not-finite')
+        return
+    mx = float(np.max(g[1:-1]))
+    noise = 4 * lib.chord_noise(p, l, r) + 1e-12 * mx + EPS
+    rec.check(g[s - l] >= mx - noise, 'fixed:new-index-not-farthest-geometrically',
+              'k=%d segment [%d,%d] (%s distance) new index %d at distance %r but index %d is at %r'
+              % (k, l, r, kind, s, float(g[s - l]), l + 1 + int(np.argmax(g[1:-1])), mx))
 
 
 def chain(case, rec, p, upto=None):
@@ -99,6 +115,7 @@ def oracle(case, rec):
                 noise = lib.chord_noise(p, l, r) + 1e-12 * float(np.max(d[1:-1])) + EPS   # EPS: the library's own absolute "all on the chord" guard
                 rec.check(d[s - l] >= float(np.max(d[1:-1])) - noise, 'fixed:new-index-not-farthest',
                           'k=%d segment [%d,%d] new %d d=%r max=%r' % (k, l, r, s, float(d[s - l]), float(np.max(d[1:-1]))))
+                geometric_farthest(rec, p, l, r, s, case['distance'], k)
                 scores = [(seg_score(p, a, b, order, D), a, b) for a, b in zip(prev[:-1], prev[1:]) if b - a >= 2]
                 mine = seg_score(p, l, r, order, D)
                 finite = [v for v, _, _ in scores if v == v]
@@ -161,6 +178,7 @@ def oracle_step(case, rec):
         d = np.asarray(D(p[l:r + 1], p[l], p[r]), dtype=float)
     noise = lib.chord_noise(p, l, r) + 1e-12 * float(np.max(d[1:-1])) + EPS   # EPS: the library's own absolute "all on the chord" guard
     rec.check(d[s - l] >= float(np.max(d[1:-1])) - noise, 'fixed:new-index-not-farthest', 'k=%d segment [%d,%d] new %d' % (k, l, r, s))
+    geometric_farthest(rec, p, l, r, s, case['distance'], k)
     scores = [(seg_score(p, a, b, order, D), a, b) for a, b in zip(prev[:-1], prev[1:]) if b - a >= 2]
     mine = seg_score(p, l, r, order, D)
     finite = [v for v, _, _ in scores if v == v]
